@@ -983,3 +983,36 @@ Definition ingest_obs (rights_from mdate : Z) : list Z :=
   | IRefused | IWritten => [0; 1]
   | IWriterDies => [2; 0]
   end.
+
+(* ------------------------------------------------------------------------------------------ *)
+(** * F. room definitions received from a peer (room_node.rs UserNode / EntityRightNode /
+      AuthorisationNode ::parse, on add_room_node) and what the next start makes of the stored rows
+      (authorisation_service.rs LOAD_QUERY through query.rs, room.rs load_*_from_json, which unwrap).
+      One member of one sys.* row of an otherwise valid, correctly signed room definition is
+      replaced; the value is known by its JSON class. *)
+Inductive rmember := MUserKey | MUserEnabled | MRightEntity | MRightSelf | MRightAll | MAuthName.
+Inductive jclass := JMissing | JNull | JBoolean | JString (b64 : bool) | JNumber | JOther.
+
+(* is the room definition accepted and stored *)
+Definition room_row_accepted (m : rmember) (v : jclass) : bool :=
+  match m, v with
+  | MUserKey, JString true => true            (* (the generator keeps the author's own key here) *)
+  | MUserKey, _ => false
+  | MUserEnabled, (JBoolean | JMissing) => true       (* None => true *)
+  | MUserEnabled, _ => false
+  | MRightEntity, JString _ => true
+  | MRightEntity, _ => false
+  | (MRightSelf | MRightAll), JBoolean => true
+  | (MRightSelf | MRightAll), _ => false
+  | MAuthName, _ => true                        (* the name of an authorisation is not read *)
+  end.
+
+(* does GraphDatabaseService::start on the same folder succeed afterwards.  A stored user row
+   without `enabled` is rendered by LOAD_QUERY as Ifnull(_json->'$.33', true) = the SQL integer 1,
+   and load_user_from_json does .as_bool().unwrap() on it *)
+Definition restart_succeeds (m : rmember) (v : jclass) : bool :=
+  negb (room_row_accepted m v && match m, v with MUserEnabled, JMissing => true | _, _ => false end).
+
+(* [outcome of add_room_node; probe; the instance starts again and answers] *)
+Definition room_def_obs (m : rmember) (v : jclass) : list Z :=
+  [zb (negb (room_row_accepted m v)); 1; zb (restart_succeeds m v)].
